@@ -211,6 +211,19 @@ CHECKS["C12"] = dict(
          "exercised with concrete text only",
     technique="CrossHair symbolic execution (z3) of PEP316 contract harnesses calling the real API", ref="DESIGN.md section 5 C12")
 
+CHECKS["C13"] = dict(
+    engine="X", category="other",
+    text="bounded symbolic verification with CrossHair ('Confirmed over all paths'): the three real renderers (regex substitution on the "
+         "raw text) are compared with a structural token-level renderer written from the statement, over symbolic counts, decimal counts, "
+         "charges of both signs (1 omitted, magnitude-then-sign), hydrate multipliers with one and two separators in both spellings, every "
+         "greek / radical prefix chosen by a symbolic table index against an independently written table, whole symbolic formula strings "
+         "over the alphabet {H,O,2,3,+} restricted to the grammar, and Reaction/Equilibrium rendering with symbolic coefficients "
+         "(omitted iff 1, stored order, arrow per format); phase index / names of created species over all suffixes (finite table)",
+    note="one symbolic integer per harness (counts <= 99 quick / 999 thorough, charges <= 99); whole strings of length <= 4 (thorough 5); "
+         "the composition half of the statement is C01; Species.from_formula with an '(aq)' suffix on an ion raises on the pinned tree "
+         "(its default phases do not include '(aq)') - recorded as an observation in DESIGN.md",
+    technique="CrossHair symbolic execution (z3) of PEP316 contract harnesses calling the real renderers", ref="DESIGN.md section 5 C13")
+
 NA = {
     "C09": "property is about float conversion factors produced inside the 'quantities' package and numpy array helpers; no symbolic "
            "value survives to_unitless (float(result)), and symbolic magnitudes alone would only re-prove linearity (DESIGN.md section 6)",
